@@ -62,6 +62,8 @@ type Sub struct {
 	Wait   ctlog.VerifWaitEntryFunc
 	Inst   *LogInst
 	Round  int // round number of the instance at admission
+
+	nextPool bool // duplicate that waits on an entry of the pool not yet rotated
 }
 
 type Ack struct {
@@ -1068,7 +1070,7 @@ func (e *LogEnv) checkAck(a *Ack) {
 	// (3) still true in the committed truth
 	if !e.NoTruth && !e.broken {
 		e.mu.Lock()
-		if a.Index >= int64(len(e.Truth)) || !e.Truth[a.Index].Equal(want) {
+		if a.Index >= int64(len(e.Truth)) || !ackMatches(a, e.Truth[a.Index], want) {
 			e.mu.Unlock()
 			e.violate("ack-not-in-truth", "acknowledged index %d does not hold the submitted entry in the committed tree", a.Index)
 			return
@@ -1111,7 +1113,7 @@ func (e *LogEnv) checkAckStorage(a *Ack, want *RefEntry) {
 		}
 		found = true
 		got := es[a.Index-n*256]
-		if !got.Equal(want) {
+		if !ackMatches(a, got, want) {
 			e.violate("ack-leaf-mismatch", "submission %d acknowledged (index %d, timestamp %d, source %s) but the stored leaf at that index is another entry or timestamp (%d)", a.Sub.ID, a.Index, a.Timestamp, a.Sub.Source, got.Timestamp)
 		}
 		break
@@ -1129,6 +1131,18 @@ func sortedKeys[M ~map[string]V, V any](m M) []string {
 	}
 	sort.Strings(ks)
 	return ks
+}
+
+// ackMatches: an acknowledgement served by deduplication (pool / cache) returns
+// the first submission's leaf, so only the Merkle-covered fields (and the
+// identity) are comparable; an acknowledgement from the sequencer must match
+// the submitted entry completely.
+func ackMatches(a *Ack, got, want *RefEntry) bool {
+	if a.Sub.Source == "sequencer" {
+		return got.Equal(want)
+	}
+	return got.Timestamp == want.Timestamp && got.IsPrecert == want.IsPrecert && got.IssuerKeyHash == want.IssuerKeyHash &&
+		bytes.Equal(got.Cert, want.Cert) && got.LeafIndex == want.LeafIndex
 }
 
 // CheckAcksFinal decodes the data tiles of the final published tree and checks
@@ -1165,7 +1179,7 @@ func (e *LogEnv) CheckAcksFinal() {
 			continue
 		}
 		want := pendingToRef(a.Sub.E, a.Index, a.Timestamp)
-		if !es[a.Index-n*256].Equal(want) {
+		if !ackMatches(a, es[a.Index-n*256], want) {
 			e.violate("ack-lost", "acknowledged submission %d (index %d, source %s) is not the entry stored at that index in the final tree", a.Sub.ID, a.Index, a.Sub.Source)
 		}
 		e.R.Count("acks_checked_final", 1)
